@@ -182,6 +182,12 @@ where
     | .nil => .nil
     | .cons k' m r => if k' = k then .cons k' (modifyAt ks f m) r else .cons k' m (go k ks f r)
 
+/-- the descendant reached by following child keys (what a statement like `self.blocks[0].layers.append(m)`
+    in an `__init__` acts on). -/
+def nodeAt : List String → Mod → Option Mod
+  | [], m => some m
+  | k :: ks, .mk _ _ _ cs => (cs.find? k).bind (nodeAt ks)
+
 /-! ## realisation (`Module.__call__` → `Parameter._realize`) -/
 
 /-- `sep.join(parts)` (own recursion: core's `String.intercalate` hides an accumulator). -/
